@@ -1,0 +1,54 @@
+//go:build verif
+
+package kernel
+
+import "github.com/MixinNetwork/mixin/crypto"
+
+// Verification hooks (build tag verif) for C12: the nonce retention maps of a
+// Chain (CosiRandoms, UsedRandoms, usedRandomsOrder) driven through the real
+// cosiRetrieveRandom / retainUsedCosiNonce without a network.
+
+type VerifNonceRetention struct {
+	chain *Chain
+}
+
+func VerifNewNonceRetention() *VerifNonceRetention {
+	self := crypto.Blake3Hash([]byte("verif-c12-self"))
+	peer := crypto.Blake3Hash([]byte("verif-c12-peer"))
+	node := &Node{IdForNetwork: self}
+	chain := &Chain{
+		node:        node,
+		ChainId:     peer,
+		CosiRandoms: make(map[crypto.Key]*crypto.CosiNonce),
+		UsedRandoms: make(map[crypto.Hash]*crypto.CosiNonce),
+	}
+	return &VerifNonceRetention{chain: chain}
+}
+
+// AddRandom is the body of the generation loop of
+// cosiPrepareRandomsAndSendCommitments for one nonce.
+func (v *VerifNonceRetention) AddRandom(nonce *crypto.CosiNonce) {
+	v.chain.CosiRandoms[nonce.Public()] = nonce
+}
+
+func (v *VerifNonceRetention) Retrieve(snap crypto.Hash, commitment crypto.Key) *crypto.CosiNonce {
+	return v.chain.cosiRetrieveRandom(snap, v.chain.ChainId, &commitment)
+}
+
+func (v *VerifNonceRetention) Retain(snap crypto.Hash, nonce *crypto.CosiNonce) {
+	v.chain.retainUsedCosiNonce(snap, nonce)
+}
+
+// Sizes returns len(CosiRandoms), len(UsedRandoms), len(usedRandomsOrder).
+func (v *VerifNonceRetention) Sizes() (int, int, int) {
+	return len(v.chain.CosiRandoms), len(v.chain.UsedRandoms), len(v.chain.usedRandomsOrder)
+}
+
+// Bound returns the commitment retained for a snapshot hash, if any.
+func (v *VerifNonceRetention) Bound(snap crypto.Hash) (crypto.Key, bool) {
+	n := v.chain.UsedRandoms[snap]
+	if n == nil {
+		return crypto.Key{}, false
+	}
+	return n.Public(), true
+}
